@@ -39,6 +39,7 @@ import (
 	"github.com/pkg/diff"
 	"github.com/uber-go/gopatch/internal/astdiff"
 	"github.com/uber-go/gopatch/internal/engine"
+	"github.com/uber-go/gopatch/internal/vhook"
 	"go.uber.org/multierr"
 	"golang.org/x/tools/imports"
 )
@@ -280,21 +281,25 @@ func (cmd *mainCmd) Run(args []string) error {
 	for _, sourcePath := range files {
 		filename := sourcePath.Absolute
 		content, err := os.ReadFile(filename)
+		vhook.Event("read", "file", filename, "ok", err == nil)
 		if err != nil {
 			return err
 		}
 		f, err := parser.ParseFile(fset, filename, content /* src */, parser.AllErrors|parser.ParseComments)
+		vhook.Event("parse", "file", filename, "ok", err == nil)
 		if err != nil {
 			errors = append(errors, fmt.Errorf("could not parse %q: %v", filename, err))
 			continue
 		}
 
 		if opts.SkipGenerated && checkGeneratedCode(f) {
+			vhook.Event("generated", "file", filename)
 			log.Printf("generated file %s: skipped", filename)
 			continue
 		}
 
 		f, comments, ok := patchRunner.Apply(filename, f)
+		vhook.Event("apply", "file", filename, "matched", ok, "descs", len(comments))
 		// If at least one patch didn't match, there's nothing to do.
 		// If --print-only was passed, print the contents out as-is.
 		if !ok {
@@ -309,6 +314,7 @@ func (cmd *mainCmd) Run(args []string) error {
 
 		var out bytes.Buffer
 		if err := format.Node(&out, fset, f); err != nil {
+			vhook.Event("format", "file", filename, "ok", false)
 			log.Printf("%s: failed: %v", filename, err)
 			errors = append(errors, fmt.Errorf("failed to rewrite %q: %v", filename, err))
 			continue
@@ -323,6 +329,7 @@ func (cmd *mainCmd) Run(args []string) error {
 			})
 			// This error shouldn't occur due to checks in
 			// findFiles, loadPatches and format.Node()
+			vhook.Event("imports", "file", filename, "ok", err == nil)
 			if err != nil {
 				errors = append(errors, fmt.Errorf("reformat %q: %w", filename, err))
 				continue
@@ -339,6 +346,7 @@ func (cmd *mainCmd) Run(args []string) error {
 		default:
 			err = os.WriteFile(filename, bs, 0o644)
 		}
+		vhook.Event("emit", "file", filename, "diff", opts.Diff, "print", opts.Print, "ok", err == nil)
 		if err != nil {
 			log.Printf("%s: failed: %v", filename, err)
 			errors = append(errors, err)
@@ -348,6 +356,7 @@ func (cmd *mainCmd) Run(args []string) error {
 	}
 
 	errors = append(errors, patchRunner.errors...)
+	vhook.Event("done", "errors", len(errors))
 	return multierr.Combine(errors...)
 }
 
@@ -400,6 +409,7 @@ func (r *patchRunner) Apply(filename string, f *ast.File) (fout *ast.File, comme
 	for _, prog := range r.patches {
 		for _, c := range prog.Changes {
 			d, ok := c.Match(f)
+			vhook.Event("change", "file", filename, "name", c.Name, "matched", ok)
 			if !ok {
 				// This patch didn't modify the file. Try the next one.
 				continue
@@ -413,6 +423,7 @@ func (r *patchRunner) Apply(filename string, f *ast.File) (fout *ast.File, comme
 			var err error
 			fout, err = c.Replace(d, cl)
 			if err != nil {
+				vhook.Event("replace_error", "file", filename, "name", c.Name)
 				r.errors = append(r.errors, fmt.Errorf("could not update %q: %v", filename, err))
 				return nil, comments, false
 			}
